@@ -174,8 +174,19 @@ def run(tier):
                 if n > 2000 and "appending tables" in r["label"]:
                     continue        # known finding K-C06-1 (quadratic): the larger sizes only cost watchdog time
                 add("rep", "%s x %d" % (r["label"], n), rep=dict(pre=r["pre"], unit=r["unit"], n=n, post=r["post"], closing=r["closing"]), progs=few)
+        # every proper prefix of the text documents of the catalogue (extreme literals, table slots with typed nulls) and of
+        # the literal navigation documents: the tokenizer's look-ahead at the end of input
+        textdocs = [bytes(r["bytes"]) for r in fixed if r["label"].startswith("text: extreme")]
+        textdocs += [bytes(r["bytes"]) for r in fixed if r["label"].startswith("text: ") and r["core"]][::7]
+        for line in open(os.path.join(core.VERIF, "spec", "navdocs.txt")):
+            line = line.rstrip("\n").replace("\\n", "\n")
+            if line:
+                textdocs.append(line.encode())
+        for tdoc in (textdocs if not quick else textdocs[seed % 2::2]):
+            for k in range(1, len(tdoc)):
+                add("truncation", "text document cut short", bytes=list(tdoc[:k]), progs=few[:3])
         nmut = 12000 if quick else 300000
-        pool = [bytes(c["bytes"]) for c in valid] + [bytes(r["bytes"]) for r in fixed if len(r["bytes"]) < 600]
+        pool = [bytes(c["bytes"]) for c in valid] + [bytes(r["bytes"]) for r in fixed if len(r["bytes"]) < 600] + textdocs
         for _ in range(nmut):
             a, b = rnd.choice(pool), rnd.choice(pool)
             add("mutation", "mutation", bytes=list(mutate(rnd, a, b)), progs=few[:4])
